@@ -27,13 +27,20 @@ partial def valueOf (j : Json) : Option Value :=
     | _, .ok (.obj kvs), _ =>
       (kvs.toList.mapM fun (kv : String × Json) => (valueOf kv.2).map fun w => (kv.1, w)).map Value.dict
     | _, _, .ok (.arr #[n, d]) => do some (.quot (← int? n) (← int? d))
-    | _, _, _ => none
+    | _, _, _ =>
+      -- Python `None`: represented by `quot 0 0` (a float `0/0` is never produced: `Mean.compute` raises on count 0);
+      -- like a string it is a non-int scalar without context; `truthy` makes it falsy
+      match j.getObjVal? "none" with
+      | .ok _ => some (.quot 0 0)
+      | _ => none
   | _ => none
 
 partial def valueJson : Value → Json
   | .int i => ofInt i
   | .str s => Json.str s
-  | .quot n d => Json.mkObj [("q", Json.arr #[ofInt n, ofInt d])]
+  | .quot n d =>
+    if n == 0 && d == 0 then Json.mkObj [("none", Json.bool true)]
+    else Json.mkObj [("q", Json.arr #[ofInt n, ofInt d])]
   | .list xs => Json.arr (xs.map valueJson).toArray
   | .tup xs => Json.mkObj [("t", Json.arr (xs.map valueJson).toArray)]
   | .dict kvs => Json.mkObj [("d", Json.mkObj (kvs.map fun (k, v) => (k, valueJson v)))]
@@ -88,6 +95,12 @@ partial def specOf (j : Json) : Option Spec :=
   | some "syn" => do
     some (.syn (← attrsOf (getD j "attrs")) (← bool? (getD j "call")) ((bool? (getD j "nodata")).getD false))
   | some "dup" => some .dup
+  | some "filtert" =>
+    match str? (getD j "q") with
+    | some "odd" => some (.filterT .oddInt)
+    | some "data" => some (.filterT .dataSelf)
+    | _ => none
+  | some "const" => (valueOf (getD j "v")).map Spec.const
   | some "junk" => some .junk
   | some "setctx" => some .setContext
   | _ => none
@@ -220,6 +233,60 @@ def fillResJson : FillRes (List Value) → Json
   | .stop s => Json.mkObj [("got", ofList valueJson s), ("end", "stop")]
   | .err e => Json.mkObj [("end", e.name)]
 
+def obsVal (v : Value) : Json := Json.mkObj [("v", valueJson v)]
+def obsExc (e : Exc) : Json := Json.mkObj [("x", e.name)]
+def obsStrm (s : Strm Value) : Json :=
+  match s.term with
+  | none => Json.mkObj [("v", ofList valueJson s.vals)]
+  | some e => obsExc e
+
+/-- `Run(None, run=_given_run)` of the harness: yields `["given", v]` -/
+def givenStage : Stage Value := fun s => .ok (mapS (fun v => .ok (.list [.str "given", v])) s)
+
+/-- the behaviour of the adapter's exposed method on the harness's sample (`denCall` … of the model), or `null`
+where the model gives the binding no meaning -/
+def denJson (ad : String) (sp : Spec) (name name2 : Option String) : Json :=
+  match sp.toObj with
+  | .error _ => Json.null
+  | .ok o =>
+    let ms := match sp with
+      | .syn attrs _ _ => synMeths attrs o
+      | _ => o.meths
+    match ad with
+    | "Call" =>
+      match mkCall o.caps name with
+      | .ok m =>
+        match denCall o ms m with
+        | some f => (match f (.int 7) with | .ok v => obsVal v | .error e => obsExc e)
+        | none => Json.null
+      | .error _ => Json.null
+    | "Run" =>
+      match mkRun o.caps name with
+      | .ok m =>
+        match denRun o ms givenStage m with
+        | some st => obsStrm (observe (st (.ofList [.int 1, .int 2])))
+        | none => Json.null
+      | .error _ => Json.null
+    | "FillInto" =>
+      match mkFillInto o.caps name with
+      | .ok m =>
+        match denFillInto o ms m with
+        | some p =>
+          match feedList (stageSink p storeSinkV) (p.initState, []) [.int 7, .int 8] with
+          | .ok st => Json.mkObj [("v", ofList valueJson st.2)]
+          | .stop _ => obsExc .lenaStopFill
+          | .err e => obsExc e
+        | none => Json.null
+      | .error _ => Json.null
+    | "FillCompute" =>
+      match mkFillCompute o.caps (name.getD "fill") (name2.getD "compute") with
+      | .ok b =>
+        match denFillCompute ms b with
+        | some a => obsStrm (observe (fcRun a (.ofList [.int 1, .int 2])))
+        | none => Json.null
+      | .error _ => Json.null
+    | _ => Json.null
+
 def handle (j : Json) : Json :=
   match str? (getD j "op") with
   | some "chain" =>
@@ -247,6 +314,17 @@ def handle (j : Json) : Json :=
       | .error e => initErr e
       | .ok () => Json.mkObj [("ok", Json.bool true)]
     | none => err "bad fillseq_init args"
+  | some "caps" =>
+    match specOf (getD j "spec") with
+    | some sp =>
+      match sp.toObj with
+      | .error e => initErr e
+      | .ok o =>
+        let names := ["run", "fill", "compute", "fill_into", "request", "_can_break_flow", "__iter__"]
+        Json.mkObj ((names.map fun n => (n, ofNat (match o.caps.attr n with | .absent => 0 | .value => 1 | .method => 2)))
+          ++ [("callable", Json.bool o.caps.callable), ("nodata", Json.bool o.hasNoData),
+              ("stateless", Json.bool sp.stateless)])
+    | none => err "bad caps args"
   | some "stage" =>
     match specOf (getD j "el"), valuesOf (getD j "flow"), optExc (getD j "term") with
     | some sp, some flow, some term =>
@@ -259,8 +337,11 @@ def handle (j : Json) : Json :=
         optStr (getD j "name"), optStr (getD j "name2"), str? (getD j "adapter") with
     | some attrs, some callable, some isSplit, some isNone, some name, some name2, some ad =>
       let c := capsOf attrs callable isSplit isNone
+      let den : Json := match specOf (getD j "el") with
+        | some sp => denJson ad sp name name2
+        | none => Json.null
       let withSpec (m : Json) (acc : Bool) (bind : String) : Json :=
-        m.mergeObj (Json.mkObj [("spec_accepts", Json.bool acc), ("spec_binding", bind)])
+        m.mergeObj (Json.mkObj [("spec_accepts", Json.bool acc), ("spec_binding", bind), ("den", den)])
       match ad with
       | "Call" => withSpec (modeJson modeCall (mkCall c name)) (callAccepts c name) (modeCall (callBinding name))
       | "SourceEl" =>
